@@ -163,6 +163,12 @@ theorem C17_circuit_table_total :
       componentFactories.any fun f => f.name == p.2 && f.kind == p.1) = true := by
   decide
 
+/-- No function or class of the loader modules carries a decorator the translator does not know,
+and none is re-bound at module level: the callables *are* the bodies the model mirrors (a
+`functools.lru_cache` on `load`, for instance, would make a second load of a rewritten file
+return the old content — the file-level oracle of harness/props/c17.py then supplies the input). -/
+theorem C17_no_decorated_loader : decoratedFunctions = [] := by decide
+
 /-! ## Loading never mutates the description -/
 
 theorem Load.entryToBranch_post (T : Trig) (e : J) : (entryToBranch T e).2 = e := by
